@@ -332,10 +332,19 @@ package keeper
 // the model: event ids, names and unpacked arguments are unconstrained values. What is stated: the hook only succeeds
 // after it has looked at every log of the receipt - it never stops early with success, leaving later swap logs
 // (whose ERC20 amount is already burned) without their native coins.
+// a log counts as a swap request when it has one topic that is the id of the ERC20 event "SwapToNative" and comes from
+// a contract bound to a token (the ABI lookups are named functions of the topic / address, nothing else is assumed)
+//@ define swapLog(L) = len(L.Topics) == 1 && ufb("abi_event_ok", L.Topics[0]) && ufstr("abi_event_name", L.Topics[0]) == "SwapToNative"
+//@                     && has(byContract, ufstr("addr_hex", L.Address))
 //@ func erc20Hook.PostTxProcessing
 //@   property C10
 //@   returns err
+//@   requires forall j:Int :: 0 <= j && j < len(receipt.Logs) ==> !receipt.Logs[j].isnil
 //@   modifies bal, supply
 //@   invariant #1 idx: rangeindex >= 0 - 1 && rangeindex < len(receipt.Logs)
+//@   invariant #1 off: disable ==> (forall j:Int :: 0 <= j && j <= rangeindex ==> !swapLog(receipt.Logs[j]) || !has(tokens, get(byContract, ufstr("addr_hex", receipt.Logs[j].Address))))
 //@   ensures all_logs_seen: err == nil ==> rangeindex + 1 >= len(receipt.Logs)
+// while ERC20 is disabled a swap request is never passed over in silence (its ERC20 amount is already burned): the hook
+// fails, which reverts the whole EVM transaction
+//@   ensures disabled_rejects: err == nil && disable ==> (forall j:Int :: 0 <= j && j < len(receipt.Logs) ==> !swapLog(receipt.Logs[j]) || !has(tokens, get(byContract, ufstr("addr_hex", receipt.Logs[j].Address))))
 //@ end
